@@ -326,6 +326,51 @@ func init() {
 				}
 			}
 		}},
+		{name: "spend-of-later-tx-in-block", opts: tn, run: func(s *scen) {
+			// the order of a block's transactions is part of its validity: an output of the block is spendable only by the
+			// transactions listed BEHIND the one that creates it. For each way of misplacing (child just before its parent /
+			// child first, parent last / list reversed / random non-topological order): the misordered block on the tip
+			// (refused, nothing changes, its child an orphan), the SAME transactions in a good order (accepted), and the
+			// misordered block as the last block of a branch that becomes the heaviest (the reorganisation fails there).
+			tip := s.base(104)
+			all := allCoins(s)
+			for m := 0; m < 4 && !s.dead; m++ {
+				s.orderMode = m
+				bad := s.makeBlock(tip, "order", all)
+				if eval(bad); bad.valid {
+					s.tieFail("corpus-setup", "the misordered block was meant to be invalid")
+					return
+				}
+				s.deliver(bad)
+				s.deliver(s.makeBlock(bad, "", all))
+				good := s.addBlock(tip, blockOpts{txs: s.lastOrdered, label: "order-ok"})
+				for _, t := range good.Txs {
+					for v, ou := range t.Outs {
+						all[outpoint{t.Txid, uint32(v)}] = rCoin{ou, good.Height, false}
+					}
+				}
+				if eval(good); !good.valid {
+					s.tieFail("corpus-setup", "the well-ordered block was meant to be valid: "+good.why)
+					return
+				}
+				s.deliver(good)
+				a := s.chainOf(good, 2, all)
+				s.deliverAll(a...)
+				b := s.chainOf(good, 2, all)
+				bad2 := s.makeBlock(b[1], "order", all)
+				after := s.chainOf(bad2, 1, all)
+				s.deliverAll(b[0], b[1], bad2) // more work than a: reorganisation, fails at the misordered block
+				s.deliver(after[0])
+				tip = a[1]
+				if s.dead {
+					return
+				}
+				if t := specTip(s.blocks); t != a[1] && t != b[1] {
+					tip = t
+				}
+			}
+			s.orderMode = -1
+		}},
 		{name: "alternating-growth-reorg-below-pruned-undo", thoroughOnly: true, opts: tn, run: func(s *scen) {
 			// OUTSIDE the all-histories theorem (BlockTree.depth: no branch longer than 2560) — documents what lies there.
 			// PreCheckBlock's depth rule compares the NEW block's height with the tip (< 2016 below it), not the fork point, so
